@@ -18,6 +18,7 @@ struct alw_ctl {
   int guard_code;     /* reserve PROT_NONE pages behind the library-managed (PROT_EXEC) code buffer */
   int guard_files;    /* place the bytes read from a file / mapped from a file directly in front of a PROT_NONE page */
   long failed_index; int failed_kind; /* what was failed */
+  int fill_on; unsigned char fill;    /* every block the library gets from malloc is filled with this byte first (heap memory has no defined content) */
 };
 extern struct alw_ctl alw;
 const char *alw_kind_name(int k);
